@@ -48,9 +48,9 @@ def run(prop, tier, replay):
             path = os.path.join(work, "replay.ndjson")
             if rp["module"] == "PVTrace":
                 hb = vf.build_harness(work, ["rec-heur"])
-                vf.run([hb["rec-heur"]] + rp["recorder_args"] + ["-out", path], timeout=1800)
+                vf.run_recorder([hb["rec-heur"]] + rp["recorder_args"] + ["-out", path], timeout=1800)
             else:
-                vf.run([bins["rec-search"]] + rp["recorder_args"] + ["-corpus", CORPUS, "-out", path], timeout=1800)
+                vf.run_recorder([bins["rec-search"]] + rp["recorder_args"] + ["-corpus", CORPUS, "-out", path], timeout=1800)
             _, mm, _ = tc.validate_trace(work, rp["module"], path, timeout=3000)
             bad = [m for m in mm if m["rule"].startswith((prop + "/", "PANIC/"))]
             for m in bad[:3]:
@@ -75,7 +75,7 @@ def run(prop, tier, replay):
                 args = ["-mode", mode, "-n", str(nev), "-seed", str(vf.seed() * 104729 + k)] + extra
 
                 def record(path, args=args):
-                    vf.run([bins["rec-search"]] + args + ["-corpus", CORPUS, "-out", path], timeout=3000)
+                    vf.run_recorder([bins["rec-search"]] + args + ["-corpus", CORPUS, "-out", path], timeout=3000)
                 groups.setdefault(module, []).append(dict(name="%s-%s-%d" % (prop, mode, i), record=record, args=args, module=module))
         pvm = None
         if prop == "C07":
@@ -89,7 +89,7 @@ def run(prop, tier, replay):
                 pargs = ["-mode", "pvbuf", "-n", str(6000 if tier == "quick" else 60000), "-seed", str(vf.seed() * 104729 + k)]
 
                 def record_pv(path, pargs=pargs, i=i):
-                    vf.run([hb["rec-heur"]] + pargs + ["-out", path], timeout=3000)
+                    vf.run_recorder([hb["rec-heur"]] + pargs + ["-out", path], timeout=3000)
                     if i == 0:
                         sp = path + ".scores"
                         vf.run([hb["rec-heur"], "-mode", "scores", "-out", sp], timeout=600)
@@ -102,7 +102,7 @@ def run(prop, tier, replay):
                 args = ["-mode", "sweep", "-n", "12000", "-seed", str(vf.seed() * 104729 + k), "-k", "300"]
 
                 def record_spsa(path, args=args):
-                    vf.run([spsa_bin] + args + ["-corpus", CORPUS, "-out", path], timeout=3000)
+                    vf.run_recorder([spsa_bin] + args + ["-corpus", CORPUS, "-out", path], timeout=3000)
                 groups.setdefault("SearchTrace", []).append(dict(name="C06-spsa-%d" % i, record=record_spsa, args=args, module="SearchTrace"))
         # run all shards of all modules together
         results = {}
